@@ -134,6 +134,46 @@ def check_pair(spec, ha, hb, reload_b=False, reorder_b=False, reload_a=False):
     return out
 
 
+def check_assembled(spec, ha, hb):
+    """The right operand is a collection put together around children that were filled on their own (its own entries
+    are still 0 while the children hold data): a += b must still be exactly a0 + b."""
+    import histogrammar as hg
+
+    args = {"spec": spec, "ha": core.show_evs(ha), "hb": core.show_evs(hb)}
+    drv = "iadd-assembled"
+
+    def assembled():
+        ch = spec["ch"]
+        if isinstance(ch, dict):
+            return getattr(hg, spec["t"])(**{k: core.mk(c, hb) for k, c in ch.items()})
+        return getattr(hg, spec["t"])(*[core.mk(c, hb) for c in ch])
+
+    out = []
+    try:
+        a, b = core.mk(spec, ha), assembled()
+        b0 = b.toJson()
+        pure_doc = (core.mk(spec, ha) + assembled()).toJson()
+        a2 = a
+        a2 += b
+        if a2 is not a:
+            return [FW.violation(PROP, drv, spec["t"] + ".__iadd__", "result-is-not-left-operand", args, {})]
+        d = C.diff(a.toJson(), pure_doc)
+        if d:
+            out.append(core.v_diff(PROP, drv, "a+=b differs from a0+b", d, a.toJson(), args))
+        d = C.diff(b.toJson(), b0)
+        if d:
+            out.append(core.v_diff(PROP, drv, "b changed by a+=b", d, b.toJson(), args))
+        # the children of b really were merged: every child of a now holds its own data plus b's child's
+        exp_children = R.ref_doc(spec, ha + hb)["data"]["data"]
+        got_children = a.toJson()["data"]["data"]
+        d = C.diff(got_children, exp_children)
+        if d:
+            out.append(core.v_diff(PROP, drv, "children of a after a+=b differ from the reference union", d, a.toJson(), args))
+    except Exception as e:
+        out.append(core.v_exc(PROP, drv, "raised", e, args))
+    return out
+
+
 def _tree(task):
     spec, tier = task
     acc = FW.Acc()
@@ -165,6 +205,12 @@ def _tree(task):
             for kb, hb in RB.items():
                 acc.n("pairs_reordered_keys")
                 acc.add(check_pair(spec, ha, hb, reorder_b=True))
+                acc.n("transitions", 2)
+    if spec["t"] in ("Label", "UntypedLabel", "Index", "Branch"):
+        for ka, ha in list(RA.items())[:: max(1, len(RA) // 8)]:
+            for kb, hb in RB.items():
+                acc.n("pairs_assembled")
+                acc.add(check_assembled(spec, ha, hb))
                 acc.n("transitions", 2)
     # right operand reloaded from JSON (what fillsparksql passes)
     for ka, ha in list(RA.items())[:: max(1, len(RA) // 12)]:
@@ -216,5 +262,7 @@ def run(tier, seed):
 
 
 def replay(driver, args):
+    if driver == "iadd-assembled":
+        return check_assembled(args["spec"], core.unshow_evs(args["ha"]), core.unshow_evs(args["hb"]))
     return check_pair(args["spec"], core.unshow_evs(args["ha"]), core.unshow_evs(args["hb"]), args.get("reload_b", False),
                       args.get("reorder_b", False), args.get("reload_a", False))
